@@ -18,6 +18,12 @@ import GluonModel.LoadVerify
 import GluonModel.Proofs.LoadVerify
 import GluonModel.ModuleRec
 import GluonModel.Proofs.ModuleRec
+import GluonModel.InstrJson
+import GluonModel.JsonText
+import GluonModel.Generated.Instr
+import GluonModel.Generated.InstrTable
+import GluonModel.InstrVerify
+import GluonModel.Proofs.InstrJson
 
 namespace GluonModel.Props.C12
 open GluonModel.Share GluonModel.Loader
@@ -341,6 +347,137 @@ example : verified (exTop 1) = true := by decide
 theorem load_unverified_rejected : verified (exTop 4294967295) = false := by decide
 
 end Verifier
+
+/-! #### Instruction payloads (round 5)
+
+    `Generated.InstrEnum` is `enum Instruction` of vm/src/types.rs as the translator
+    (translate/instructions.py) finds it on every run: the typed inductive `Instr`, the table
+    `variants` (shape, member names, operand widths) and `toRaw`/`ofRaw`. `InstrJson` is serde's
+    externally tagged JSON form, generic in the table — so the statements below are re-proved
+    against whatever the enum is today. Tie to the code: every `instructions` array of every module
+    the real compiler emits is parsed, decoded, encoded and printed by the driver and must
+    reproduce the text exactly (stream `mod`); hand-damaged arrays are decoded by the real
+    `serde_json::from_str::<Vec<Instruction>>` and by `decodeList` (stream `instrs`). -/
+section Instructions
+open GluonModel.InstrJson GluonModel.Generated GluonModel.Generated.InstrEnum GluonModel.InstrVerify
+
+/-- Every instruction whose operands fit their Rust types is read back from its JSON form. -/
+theorem instr_de_ser (i : Instr) (h : i.inRange = true) : decode (encode i) = some i :=
+  InstrEnum.Proofs.decode_encode i h
+
+/-- Different instructions have different JSON forms. -/
+theorem instr_encode_injective (a b : Instr) (ha : a.inRange = true) (hb : b.inRange = true)
+    (h : encode a = encode b) : a = b :=
+  InstrEnum.Proofs.encode_injective a b ha hb h
+
+/-- `Vec<Instruction>` (the `instructions` member of a `CompiledFunction`). -/
+theorem instr_list_de_ser (is : List Instr) (h : is.all Instr.inRange = true) :
+    decodeList (encodeList is) = some is :=
+  InstrEnum.Proofs.decodeList_encodeList is h
+
+theorem instr_list_encode_injective (as bs : List Instr) (ha : as.all Instr.inRange = true)
+    (hb : bs.all Instr.inRange = true) (h : encodeList as = encodeList bs) : as = bs :=
+  InstrEnum.Proofs.encodeList_injective as bs ha hb h
+
+/-- The same for ANY enum table whose struct variants have distinct member names (what the
+    theorems above rest on). -/
+theorem enum_de_ser (tb : Table) (htb : tb.ok = true) (r : Raw) (hr : r.ok tb = true) :
+    decodeRaw tb (encodeRaw tb r) = some r :=
+  InstrJson.Proofs.decodeRaw_encodeRaw tb htb r hr
+
+/-- The generated table is well formed, and it lists the same variants with the same number of
+    operands as C01b's independently generated `instrTable` (whose `adjustGen` is used below). -/
+theorem instr_table_wellformed :
+    Table.ok variants = true ∧ keysNodup (variants.map (·.name)) = true ∧
+    variants.map (fun v => (v.name, match v.shape with
+      | .unit => 0 | .newtype _ => 1 | .struct fs => fs.length)) =
+      instrTable.map (fun e => (e.1, e.2.length)) := by
+  decide
+
+/-- Reading is more liberal than writing, exactly as serde's derive is: the members of a struct
+    variant may come in any order and unknown members are skipped. -/
+theorem instr_members_any_order (fs : List (String × OpTy)) (ops : List Operand)
+    (hok : opsOk fs ops = true) (kvs : List (String × J))
+    (hn : keysNodup (kvs.map (·.1)) = true) (hsub : ∀ kj ∈ encodeFields fs ops, kj ∈ kvs) :
+    decodePayload (.struct fs) (.obj kvs) = some ops :=
+  InstrJson.Proofs.decodePayload_struct_any_order fs ops hok kvs hn hsub
+
+/-- The range hypothesis is needed, and the reader rejects what does not fit: `Push(2^32)`, a
+    byte of 256, a non-unit variant written as a bare string, a repeated member, a missing member,
+    two variants in one object. -/
+theorem instr_out_of_range_rejected :
+    decode (.obj [("Push", .int 4294967296)]) = none ∧
+    decode (.obj [("PushByte", .int 256)]) = none ∧
+    decode (.obj [("Push", .int (-1))]) = none ∧
+    decode (.obj [("Push", .flt ['1', '.', '5'])]) = none ∧
+    decode (.str "Push") = none ∧
+    decode (.obj [("NewRecord", .obj [("record", .int 0), ("args", .int 1), ("args", .int 1)])]) = none ∧
+    decode (.obj [("NewRecord", .obj [("record", .int 0)])]) = none ∧
+    decode (.obj [("Split", .null), ("Return", .null)]) = none ∧
+    decode (.obj [("Nop", .null)]) = none := by
+  decide
+
+example : encode (.newRecord 0 2) = .obj [("NewRecord", .obj [("record", .int 0), ("args", .int 2)])] := by
+  decide
+example : encode .split = .str "Split" := by decide
+example : encode (.pushInt (-5)) = .obj [("PushInt", .int (-5))] := by decide
+example : decode (.obj [("NewRecord", .obj [("args", .int 2), ("x", .arr []), ("record", .int 0)])]) =
+    some (.newRecord 0 2) := by decide
+example : decode (.obj [("NewRecord", .arr [.int 0, .int 2])]) = some (.newRecord 0 2) := by decide
+example : decode (.obj [("Split", .null)]) = some .split := by decide
+example : (Instr.newClosure 0 4294967295).inRange = true := by decide
+example : [Instr.push 3, .split, .pushFloat "1.5e-7".toList, .pushInt (-9223372036854775808)].all
+    Instr.inRange = true := by decide
+example : JsonText.print (encodeList [.push 3, .split, .newRecord 0 2]) =
+    "[{\"Push\":3},\"Split\",{\"NewRecord\":{\"record\":0,\"args\":2}}]".toList := by decide
+
+/-- `Instruction::adjust` (C01b's generated `adjustGen`) and the frame effect the verifier uses
+    (C07's `StackVerify`, transcribed from the interpreter) agree on every instruction that can
+    execute at height `h` — except the three whose effect the compiler patches by hand. -/
+theorem stack_effect_agrees_with_adjust (i : Instr) (k h : Nat) (hp : handPatched i = false)
+    (hok : (toV k i).stack.okAt h = true) :
+    (((toV k i).stack.after h : Nat) : Int) = (h : Int) + adjustOf i := by
+  cases i <;>
+    simp_all [toV, handPatched, adjustOf, adjustGen, Instr.kind, Instr.intOps,
+      StackVerify.Instr.okAt, StackVerify.Instr.after, StackVerify.Instr.needs] <;>
+    omega
+
+example : handPatched (.constructRecord 0 3) = false ∧
+    (toV 0 (.constructRecord 0 3)).stack.okAt 5 = true := by decide
+/-- … and for those three they differ (so a verifier cannot be built from `adjust` alone). -/
+example : (((toV 2 .split).stack.after 3 : Nat) : Int) ≠ 3 + adjustOf .split := by decide
+
+/-- A module the driver answers `accept` for is `verified`, hence (`load_verified_fixed`) none of its
+    activations indexes a slot, the code or a table out of range. The per-case check
+    `emitted_modules_verified` (harness stream `mod`) demands `accept` for every module the real
+    compiler emits. -/
+theorem emitted_module_accept_sound (m : MFn) (hv : verdict m = "accept") (pc h : Nat)
+    (hr : StackVerify.Reach m.toVFn.toFn pc h) :
+    ∃ vi, m.toVFn.code[pc]? = some vi ∧ h ≤ m.toVFn.max ∧ vi.stack.after h ≤ m.toVFn.max ∧
+      ∀ a ∈ LoadVerify.accesses vi pc h, LoadVerify.InRange m.toVFn h a := by
+  have hver : LoadVerify.verified m.toVFn = true := by
+    unfold verdict at hv
+    by_cases h1 : m.frameSupported = true
+    · by_cases h2 : LoadVerify.verified m.toVFn = true
+      · exact h2
+      · simp [h1, h2] at hv
+    · by_cases h2 : LoadVerify.operandsOkDeep m.toVFn = true <;> simp [h1, h2] at hv
+  exact load_verified_fixed m.toVFn hver pc h hr
+
+/-- The real bytecode of `let f x = \y -> x #Int+ y in f 1 2` (corpus/C12/closure_operand.glu), now
+    as the decoded instruction arrays: accepted; with `NewClosure.upvars := 4294967295` (in range for
+    a `u32`, so it deserialises!) rejected. -/
+def exMLam : MFn := .mk 1 3 [.pushUpVar 0, .push 0, .addInt, .return_] (some []) 0 [] 1 []
+def exMF (upv : Nat) : MFn := .mk 1 4
+  [.newClosure 0 upv, .push 1, .push 0, .closeClosure 1, .push 1, .slide 1, .return_] (some []) 0 [] 0 [exMLam]
+def exMTop (upv : Nat) : MFn := .mk 0 4
+  [.newClosure 0 0, .push 0, .closeClosure 0, .push 0, .pushInt 1, .pushInt 2, .tailCall 2, .slide 1,
+   .return_] (some []) 0 [] 0 [exMF upv]
+
+example : verdict (exMTop 1) = "accept" := by decide
+example : verdict (exMTop 4294967295) = "reject" := by decide
+
+end Instructions
 
 /-! Non-vacuity: a graph with real sharing — a record `5` whose two fields are the same array `3`,
     plus an unshared (`unique`) node — meets `Agrees`, and its round trip is computed. -/
